@@ -1,10 +1,17 @@
 (* C07 -- Animation playback is independent of the call history.
+   (modules H / HC at the end: the same for the decoder working on the FILE BYTES -- Model/ReadImageOps.v run_ops over the record of WebPDecoder::new:
+   read_frame with the ANMF location loop, reset_animation, read_image with its save / rewind / restore -- tied by the readimage correspondence.)
+   (modules H / HC at the end: the same for the decoder working on the FILE BYTES -- Model/ReadImageOps.v run_ops over WebPDecoder::new's record,
+   read_frame with the ANMF location loop, reset_animation, read_image with its save / rewind / restore -- tied by the readimage correspondence)
    Property theorems only.  Objects: Model.Anim.run_ops (the AnimationState machine of decoder.rs under read_frame,
    reset_animation and read_image, on the REPAIRED tree: fix_F15 resets the whole state), Spec.Anim.cursor_run (a playback
    cursor over the list of frames a fresh decoder shows), Model.Anim.play (a fresh decoder reading all frames). *)
 From Coq Require Import ZArith List Bool.
 From WebP Require Import Lib.Res Lib.Arr Model.AlphaBlend Model.Anim Spec.Anim
   Proofs.Anim_play Proofs.Anim_history Properties.C06.
+From WebP Require Spec.Container Spec.Anim Model.AlphaBlend Model.Anim Model.ReadImage Model.ReadImageOps Model.Vp8Decode
+  Proofs.Container_bytes Proofs.Anim_play Proofs.Anim_history Proofs.ReadImage_anim Proofs.ReadImage_ops
+  Proofs.VP8_decode_readimage Proofs.ReadImage_ops_closed.
 Import ListNotations.
 Open Scope Z_scope.
 
@@ -61,3 +68,103 @@ Example history_instance :
   [ (RFrame (Ok 70), f1); (RImage (Ok tt), f1); (RFrame (Ok 80), f2); (RFrame (Ok 90), f3); (RFill, sentinel);
     (RFrame (Err ENoMoreFrames), sentinel); (RReset, sentinel); (RFrame (Ok 70), f1) ].
 Proof. split; [exact (proj1 read_frame_spec_instance)|]. vm_compute. reflexivity. Qed.
+
+
+(* ---------------- C07 for the decoder working on the FILE BYTES (frames decoded from the file, not given decoded) ---------------- *)
+Module H.
+  Import Spec.Container Model.ReadImage Model.ReadImageOps Proofs.ReadImage_anim Proofs.ReadImage_ops.
+
+  (* for every well-formed animated container (chunks of any kind before, between and after the ANMF chunks) whose frame payloads decode,
+     every call sequence over {read_frame, reset_animation, read_image, buffer refill} and every buffer of the right size: the trace of the
+     public calls on WebPDecoder::new(file bytes) is the trace of Model.Anim.run_ops on the file with frames given decoded (a valid_file) *)
+  Theorem run_ops_from_file :
+    forall (vp8 : list Z -> res (Z * Z * list Z * list Z * list Z)) (c : container) (ms : list Model.Anim.mframe),
+      wf c = true -> anim c = true -> Forall2 (frame_decodes vp8 (fst (dims c)) (snd (dims c))) (frames c) ms ->
+      fst (dims c) * snd (dims c) * 4 < 4294967296 ->
+      Anim_play.valid_file (anim_file c ms) /\
+      exists dec, Container_bytes.M.new (serialize c) = Ok dec /\
+        forall ops buf, len buf = buffer_size c ->
+          ReadImageOps.run_ops vp8 dec ops (initial_fstate dec) buf
+          = map conv (Model.Anim.run_ops (anim_file c ms) ops Model.Anim.fresh_state buf).
+  Proof. exact ReadImage_ops.run_ops_from_file. Qed.
+
+  (* history_independent from the file bytes: the trace is that of the playback cursor over what a fresh decoder shows *)
+  Theorem history_independent_from_file :
+    forall (vp8 : list Z -> res (Z * Z * list Z * list Z * list Z)) (c : container) (ms : list Model.Anim.mframe),
+      wf c = true -> anim c = true -> Forall2 (frame_decodes vp8 (fst (dims c)) (snd (dims c))) (frames c) ms ->
+      fst (dims c) * snd (dims c) * 4 < 4294967296 ->
+      exists dec, Container_bytes.M.new (serialize c) = Ok dec /\
+        forall ops buf, len buf = buffer_size c ->
+          ReadImageOps.run_ops vp8 dec ops (initial_fstate dec) buf
+          = map conv (Anim_history.trace_of
+                        (Spec.Anim.cursor_run (Anim_history.kshown (anim_file c ms)) (map Anim_history.op_of ops) 0 buf)).
+  Proof. exact ReadImage_ops.history_independent_from_file. Qed.
+
+  (* the three clauses (frames after reset = a fresh playback; read_image = first frame, position unchanged; exhausted = NoMoreFrames, buffer untouched) *)
+  Theorem clauses_from_file :
+    forall (vp8 : list Z -> res (Z * Z * list Z * list Z * list Z)) (c : container) (ms : list Model.Anim.mframe),
+      wf c = true -> anim c = true -> Forall2 (frame_decodes vp8 (fst (dims c)) (snd (dims c))) (frames c) ms ->
+      fst (dims c) * snd (dims c) * 4 < 4294967296 ->
+      exists dec, Container_bytes.M.new (serialize c) = Ok dec /\
+        forall ops buf i, len buf = buffer_size c ->
+          let F := anim_file c ms in
+          let tr := ReadImageOps.run_ops vp8 dec ops (initial_fstate dec) buf in
+          (forall j, nth_error ops i = Some Model.Anim.MFrame -> Anim_history.position F (firstn i ops) = j -> (j < length ms)%nat ->
+             nth_error tr i = option_map (fun rb => (RoFrame (fst rb), snd rb)) (nth_error (play vp8 dec (length ms) buf) j))
+          /\ (nth_error ops i = Some Model.Anim.MImage ->
+              nth_error tr i = Some (RoImage (Ok tt) true,
+                                     Spec.Anim.render (alpha c) (fst (dims c)) (snd (dims c))
+                                       (Spec.Anim.frames_upto Model.AlphaBlend.do_alpha_blending (Anim_play.anim_of F) 0))
+              /\ Anim_history.position F (firstn (S i) ops) = Anim_history.position F (firstn i ops))
+          /\ (nth_error ops i = Some Model.Anim.MFrame -> Anim_history.position F (firstn i ops) = length ms ->
+              exists b, nth_error tr i = Some (RoFrame (Err ENoMoreFrames), b)
+                        /\ b = Anim_history.buffer_before (Model.Anim.run_ops F ops Model.Anim.fresh_state buf) i buf).
+  Proof. exact ReadImage_ops.clauses_from_file. Qed.
+End H.
+
+(* ---------------- the same with the frame decoder closed (C02): vp8 := Model.Vp8Decode.decode_frame ---------------- *)
+Module HC.
+  Import Spec.Container Model.ReadImage Model.ReadImageOps Proofs.ReadImage_anim Proofs.ReadImage_ops Proofs.VP8_decode_readimage.
+
+  Theorem run_ops_from_file_closed :
+    forall (c : container) (ms : list Model.Anim.mframe),
+      wf c = true -> anim c = true -> Forall2 (frame_decodes_spec (fst (dims c)) (snd (dims c))) (frames c) ms ->
+      fst (dims c) * snd (dims c) * 4 < 4294967296 ->
+      Anim_play.valid_file (anim_file c ms) /\
+      exists dec, Container_bytes.M.new (serialize c) = Ok dec /\
+        forall ops buf, len buf = buffer_size c ->
+          ReadImageOps.run_ops Model.Vp8Decode.decode_frame dec ops (initial_fstate dec) buf
+          = map conv (Model.Anim.run_ops (anim_file c ms) ops Model.Anim.fresh_state buf).
+  Proof. exact ReadImage_ops_closed.run_ops_from_file_closed. Qed.
+
+  Theorem history_independent_from_file_closed :
+    forall (c : container) (ms : list Model.Anim.mframe),
+      wf c = true -> anim c = true -> Forall2 (frame_decodes_spec (fst (dims c)) (snd (dims c))) (frames c) ms ->
+      fst (dims c) * snd (dims c) * 4 < 4294967296 ->
+      exists dec, Container_bytes.M.new (serialize c) = Ok dec /\
+        forall ops buf, len buf = buffer_size c ->
+          ReadImageOps.run_ops Model.Vp8Decode.decode_frame dec ops (initial_fstate dec) buf
+          = map conv (Anim_history.trace_of
+                        (Spec.Anim.cursor_run (Anim_history.kshown (anim_file c ms)) (map Anim_history.op_of ops) 0 buf)).
+  Proof. exact ReadImage_ops_closed.history_independent_from_file_closed. Qed.
+
+  Theorem clauses_from_file_closed :
+    forall (c : container) (ms : list Model.Anim.mframe),
+      wf c = true -> anim c = true -> Forall2 (frame_decodes_spec (fst (dims c)) (snd (dims c))) (frames c) ms ->
+      fst (dims c) * snd (dims c) * 4 < 4294967296 ->
+      exists dec, Container_bytes.M.new (serialize c) = Ok dec /\
+        forall ops buf i, len buf = buffer_size c ->
+          let F := anim_file c ms in
+          let tr := ReadImageOps.run_ops Model.Vp8Decode.decode_frame dec ops (initial_fstate dec) buf in
+          (forall j, nth_error ops i = Some Model.Anim.MFrame -> Anim_history.position F (firstn i ops) = j -> (j < length ms)%nat ->
+             nth_error tr i = option_map (fun rb => (RoFrame (fst rb), snd rb)) (nth_error (play Model.Vp8Decode.decode_frame dec (length ms) buf) j))
+          /\ (nth_error ops i = Some Model.Anim.MImage ->
+              nth_error tr i = Some (RoImage (Ok tt) true,
+                                     Spec.Anim.render (alpha c) (fst (dims c)) (snd (dims c))
+                                       (Spec.Anim.frames_upto Model.AlphaBlend.do_alpha_blending (Anim_play.anim_of F) 0))
+              /\ Anim_history.position F (firstn (S i) ops) = Anim_history.position F (firstn i ops))
+          /\ (nth_error ops i = Some Model.Anim.MFrame -> Anim_history.position F (firstn i ops) = length ms ->
+              exists b, nth_error tr i = Some (RoFrame (Err ENoMoreFrames), b)
+                        /\ b = Anim_history.buffer_before (Model.Anim.run_ops F ops Model.Anim.fresh_state buf) i buf).
+  Proof. exact ReadImage_ops_closed.clauses_from_file_closed. Qed.
+End HC.
